@@ -128,12 +128,12 @@ func TestGocvBoundedC03(t *testing.T) {
 		}
 		return nil
 	}
-	step := 1
-	if depth == 2 {
-		step = 1
+	sample := 7
+	if depth == 3 {
+		sample = 53
 	}
-	for i1 := 0; i1 < len(seqs); i1 += step {
-		for i2 := 0; i2 < len(seqs); i2 += 7 { // the sibling's sequences are sampled (every 7th), the first child's are exhaustive
+	for i1 := 0; i1 < len(seqs); i1++ {
+		for i2 := 0; i2 < len(seqs); i2 += sample { // the sibling's sequences are sampled (every 7th; thorough: every 53rd of the longer list), the first child's are exhaustive
 			s1, s2 := seqs[i1], seqs[i2]
 			for _, order := range []string{"first then second", "second then first"} {
 				for _, dec := range []string{"merge,merge", "merge,discard", "discard,merge", "discard,discard"} {
@@ -255,7 +255,7 @@ func TestGocvBoundedC03(t *testing.T) {
 			}
 		}
 	}
-	fmt.Printf("GOCV-BOUNDED cases=%d failures=%d scope=\"base {12,1234,5678}; child A: all %d sequences of <= %d operations over insert/delete of %v, child B: every 7th of them; merge/discard decisions in both orders; views of parent, child and sibling against map models, stale merges rejected without a trace\"\n", cases, fails, len(seqs), depth, paths)
+	fmt.Printf("GOCV-BOUNDED cases=%d failures=%d scope=\"base {12,1234,5678}; child A: all %d sequences of <= %d operations over insert/delete of %v, child B: every %dth of them; merge/discard decisions in both orders; views of parent, child and sibling against map models, stale merges rejected without a trace\"\n", cases, fails, len(seqs), depth, paths, sample)
 	if fails > 0 {
 		t.Fail()
 	}
